@@ -15,6 +15,8 @@ CLAIMED['C08'] = ("Bounded symbolic model checking of the stored-record format: 
          "Trusted: go/ssa, symgo, z3; codec (json/yaml/cbor/msgpack/gzip) contract stubs; value-level JSON fidelity is outside the claim.")
 CLAIMED['C09'] = ("Bounded symbolic model checking of dsd dump/load dispatch: all 256 serialization ids x 256 compression ids symbolically, AUTO resolution, GenCode and RAW with real code, HTTP request/response content-type coherence, Accept parsing for canonical headers and every ASCII string up to 3 (quick) / 5 (thorough) bytes, and Load totality on every byte string up to 4 / 6 bytes; third-party codecs and gzip are contract stubs.",
          "Trusted: go/ssa, symgo, z3; codec and gzip contract stubs (value-level fidelity of JSON/CBOR/MsgPack/YAML and real gzip are outside the claim); http.Header modelled as a map.")
+CLAIMED['C18'] = ("Bounded symbolic model checking of every name-to-path computation (fstree keys and query prefixes, DirStructure paths, updater scan roots and archive entry names) with the real path/filepath code: every name up to 6 (quick) / 8-9 (thorough) bytes; all file-system calls are recording stubs and the oracle is on the recorded paths; counterexamples are confirmed on real system calls (native replay in a sandbox under strace).",
+         "Trusted: go/ssa, symgo, z3, the os/filepath.Walk/zip stubs; symlinks, Windows paths and the api bridge are outside the claim.")
 NA = {}
 def check(pid):
     text, note = CLAIMED[pid]
